@@ -20,11 +20,6 @@ func TestMain(m *testing.M) {
 	os.Exit(code)
 }
 
-// replayFn re-executes a stored case through the same check function the
-// generated runs use, without rapid. It returns the violation message, if any.
-type replayFn func(raw json.RawMessage) (msg string, failed bool, err error)
-
-var replayers = map[string]replayFn{}
 
 // TestReplay re-executes the files listed in $VERIF_REPLAY_FILES (separated by
 // ':') and prints one line per file: "REPLAY <file> PASS" or
